@@ -289,6 +289,20 @@ fn random_runs(out: &mut Out, jet: &mut Jet, rng: &mut Rng, count: usize) {
         let evs: Vec<String> = (0..len).map(|_| random_event(rng)).collect();
         lines.push(format!("tui {init} {}", evs.join(" ")));
     }
+    // sustained scrolling: the same navigation key held down across the whole table and beyond, for every
+    // table size up to 70 rows (wrap-around at both ends, from the top and from the bottom)
+    for n in 0..=70usize {
+        for key in ["j", "k", "Down", "Up"] {
+            if count < 1000 && n % 3 != 0 && n > 8 {
+                continue; // quick tier: every third size above 8
+            }
+            let run = vec![key; n + 7].join(" ");
+            lines.push(format!("tui {n}:0 {run}"));
+            if n > 0 {
+                lines.push(format!("tui {n}:{} {run} g {run}", n - 1));
+            }
+        }
+    }
     let answers = jet.batch(&lines);
     for (line, ans) in lines.iter().zip(answers.iter()) {
         let w: Vec<&str> = line.split(' ').collect();
